@@ -971,7 +971,48 @@ pub fn some_cmd(rng: &mut StdRng, region: &str) -> Vec<u8> {
     }
 }
 
+/// Requests whose answers fill the 15-byte answer buffer to a chosen level L (DevStatusAns = 3 bytes, LinkADRAns /
+/// RXParamSetupAns = 2, RXTimingSetupAns = 1), followed by one more request of each answer size: every (L, size) pair
+/// around the limit is hit, in particular "exactly full" and "one byte short".
+pub fn fill_stream(rng: &mut StdRng, region: &str, max_len: usize) -> Vec<u8> {
+    let fixed = region == "US915" || region == "AU915";
+    let adr = [0x03u8, 0xff, 0xff, 0xff, if fixed { 0x60 } else { 0x00 }];
+    let level = rng.gen_range(9..=15usize);
+    let mut s: Vec<u8> = vec![];
+    let mut have = 0usize;
+    while have < level {
+        let rem = level - have;
+        let pick = if rem >= 3 && rng.gen_bool(0.6) { 3 } else if rem >= 2 && rng.gen_bool(0.7) { 2 } else { 1 };
+        match pick {
+            3 => s.push(0x06),
+            2 => s.extend_from_slice(&adr),
+            _ => s.extend_from_slice(&[0x08, 0x01]),
+        }
+        have += pick;
+    }
+    match rng.gen_range(0..4) {
+        0 => s.push(0x06),
+        1 => s.extend_from_slice(&adr),
+        2 => s.extend_from_slice(&[0x08, 0x02]),
+        _ => {
+            let f = freq3(band(region).0 + 300_000);
+            s.extend_from_slice(&[0x05, 0x00, f[0], f[1], f[2]]);
+        }
+    }
+    if rng.gen_bool(0.3) {
+        s.push(0x06);
+    }
+    if s.len() > max_len {
+        // does not fit the carrier (FOpts): keep the tail, which is where the limit is reached
+        s = vec![0x06, 0x06, 0x06, 0x06, 0x08, 0x01, 0x06][..7.min(max_len)].to_vec();
+    }
+    s
+}
+
 pub fn cmd_stream(rng: &mut StdRng, region: &str, max_len: usize) -> Vec<u8> {
+    if rng.gen_ratio(1, 7) {
+        return fill_stream(rng, region, max_len);
+    }
     let mut s: Vec<u8> = vec![];
     if max_len >= 40 && rng.gen_ratio(1, 8) {
         // more answers than fit in 15 bytes, with a short answer behind a long one
